@@ -103,28 +103,9 @@ Definition well_formed (keys : list (list Z)) : bool := strict_sorted keys && ke
 Definition spec_ok_d (keys : list (list Z)) (probes : list (list Z * fres * scal)) : bool :=
   if well_formed keys then forallb (probe_spec_ok keys) probes else true.
 
-(* ---- recorded findings: every probe that fails the property must lie in a defect class of the
-   AVX2 narrowing (and only find_key may fail, not the scalar window); the class reported is that of
-   the first failing probe.  0 = some failure is not explained. *)
-Definition probe_class (avx2 : bool) (keys : list (list Z)) (ps : list Z) (p : list Z * fres * scal) : Z :=
-  let '(k, _, _) := p in
-  if probe_spec_ok keys p then 0
-  else if avx2 && probe_scalar_ok keys p then
-    (let d := defect_class_ps ps (prefix_of k) in if d =? 0 then (-1) else d)
-  else (-1).
-
-Fixpoint combine_classes (cs : list Z) : Z :=
-  match cs with
-  | [] => 0
-  | c :: t =>
-      let r := combine_classes t in
-      if c =? 0 then r                       (* probe passes *)
-      else if c <? 0 then (-1)               (* unexplained failure *)
-      else if r <? 0 then (-1) else c        (* first failing probe's class, unless a later one is unexplained *)
-  end.
-
-Definition known_class_d (avx2 : bool) (keys : list (list Z)) (ps : list Z) (probes : list (list Z * fres * scal)) : Z :=
-  if well_formed keys then Z.max 0 (combine_classes (map (probe_class avx2 keys ps) probes)) else 0.
+(* ---- recorded findings: none open.  F-C30-1/2 (AVX2 narrowing dropped slots with the probe's prefix) were
+   fixed in /repo by commit 6f8c0a4; the model is the repaired loop, so every spec failure is a new violation. *)
+Definition known_class_d (avx2 : bool) (keys : list (list Z)) (ps : list Z) (probes : list (list Z * fres * scal)) : Z := 0.
 
 (* decode a case once, then judge it *)
 Definition judge (c : case) : bool * bool * Z :=
@@ -135,20 +116,15 @@ Definition judge (c : case) : bool * bool * Z :=
       let probes := map (decode_probe keys) zprobes in
       let m := model_agrees_d avx2 keys ps probes in
       let s := spec_ok_d keys probes in
-      (m, s, if m && s then 0 else known_class_d avx2 keys ps probes)
+      (m, s, known_class_d avx2 keys ps probes)
   end.
 
 (* model reproduces the implementation's observed behaviour *)
 Definition model_agrees (c : case) : bool := fst (fst (judge c)).
 (* the observed behaviour satisfies the property itself *)
 Definition spec_ok (c : case) : bool := snd (fst (judge c)).
-(* 0 = not a recorded finding; 1, 2 = defect classes of Model.LeafSearch.defect_class *)
-Definition known_class (c : case) : Z :=
-  match c with
-  | Pg avx2 zkeys zprobes =>
-      let keys := decode_keys [] zkeys in
-      known_class_d avx2 keys (prefixes keys) (map (decode_probe keys) zprobes)
-  end.
+(* 0 = not a recorded finding: there is no open finding for C30 *)
+Definition known_class (c : case) : Z := 0.
 
 Fixpoint failures_from (i : Z) (cs : list case) : list (Z * bool * bool * Z) :=
   match cs with
